@@ -35,6 +35,7 @@ type job struct {
 	defs     []string
 	src      string
 	extra    []string // e.g. -fno-pic
+	inputs   []string // content-determining files when src is only a wrapper (cache key)
 	out      string
 	pic      bool
 	err      error
@@ -56,13 +57,20 @@ func runJobs(jobs []*job, par int) {
 			sem <- struct{}{}
 			defer func() { <-sem }()
 			t0 := time.Now()
-			args := []string{j.opt, "-c", "-x", "c", "-w"}
-			args = append(args, j.extra...)
+			flags := []string{j.opt, "-c", "-x", "c", "-w"}
+			flags = append(flags, j.extra...)
 			for _, d := range j.defs {
-				args = append(args, "-D"+d)
+				flags = append(flags, "-D"+d)
 			}
-			args = append(args, j.src, "-o", j.out)
-			if err := hlib.CC(j.cc, args...); err != nil {
+			os.Remove(j.out)
+			var err error
+			if len(j.inputs) > 0 {
+				// src is a wrapper that #includes the inputs by absolute path
+				err = cachedCC(j.cc, flags, []string{j.src}, false, j.inputs, j.out)
+			} else {
+				err = cachedCC(j.cc, flags, []string{j.src}, true, nil, j.out)
+			}
+			if err != nil {
 				j.err = err
 				return
 			}
@@ -226,14 +234,30 @@ func main() {
 		sums[n] = s
 	}
 
+	// ---- random streams, forked in a fixed order (the phases below overlap in
+	// time, but every r.Op / r.Fail call is made from this goroutine, in a
+	// fixed order, so the output is deterministic for a given seed)
+	nGen := 8
+	if r.Thorough {
+		nGen = 60
+	}
+	genRands := make([]*hlib.Rand, nGen)
+	for i := range genRands {
+		genRands[i] = r.Rand.Fork()
+	}
+	effRand := r.Rand.Fork()
+	effCRand := r.Rand.Fork()
+	stdRand := r.Rand.Fork()
+	os.Symlink(sb.Snapshot, filepath.Join(work, "snapshot.c"))
+
 	only := os.Getenv("C10_DEV_ONLY") // development only
 	want := func(part string) bool { return only == "" || strings.Contains(only, part) }
 	if !want("objects") {
 		if want("gen") {
-			runGenerated(r, sb, work, 6)
+			startGenerated(r, sb, work, genRands[:6])()
 		}
 		if want("effects") {
-			runEffects(r, sb)
+			runEffectsFront(r, effRand)(r, sb, effCRand)()
 		}
 		if want("names") {
 			runNames(r)
@@ -252,40 +276,67 @@ func main() {
 		return j
 	}
 	type cfg struct{ cc, opt string }
-	// gcc -O0 is in the quick tier too: an optimiser proves a never-written
-	// `static` table read-only and hides it in .rodata; -O0 shows what the
-	// source says.
-	cfgs := []cfg{{"gcc", "-O2"}, {"gcc", "-O0"}}
+	// Per-module objects.  Quick: gcc -O0 only — the optimiser proves a
+	// never-written `static` table read-only and hides it in .rodata, -O0 shows
+	// what the source says, and neither the export set nor the set of
+	// referenced external symbols can shrink at -O0; what the optimiser ADDS
+	// (memset/memcpy idioms, libgcc helpers) is seen in the whole-library
+	// object, which is gcc -O2 (the configuration that ships).
+	base := cfg{"gcc", "-O0"}
+	ship := cfg{"gcc", "-O2"}
+	modCfgs := []cfg{base}
+	wholeCfgs := []cfg{ship}
 	if r.Thorough {
-		cfgs = append(cfgs, cfg{"gcc", "-O3"})
+		modCfgs = append(modCfgs, cfg{"gcc", "-O2"}, cfg{"gcc", "-O3"})
+		wholeCfgs = append(wholeCfgs, cfg{"gcc", "-O0"}, cfg{"gcc", "-O3"})
 		if _, err := exec.LookPath("clang"); err == nil {
-			cfgs = append(cfgs, cfg{"clang", "-O2"}, cfg{"clang", "-O0"})
+			modCfgs = append(modCfgs, cfg{"clang", "-O2"}, cfg{"clang", "-O0"})
+			wholeCfgs = append(wholeCfgs, cfg{"clang", "-O2"}, cfg{"clang", "-O0"})
 		} else {
 			r.Count("skipped:clang-absent")
 		}
 	}
 	// whole-library jobs first (they are the longest)
 	wholePlain := map[cfg]*job{}
-	var wholeStatic, wholeNoPic *job
-	for _, c := range cfgs {
-		if !r.Thorough && c.opt == "-O0" {
-			continue // quick: modules only at -O0
-		}
+	for _, c := range wholeCfgs {
 		wholePlain[c] = mk("ALL", c.cc, c.opt, nil, nil, true)
 	}
-	wholeStatic = mk("ALL-STATIC", "gcc", "-O2", []string{"WUFFS_CONFIG__STATIC_FUNCTIONS"}, nil, true)
-	// (section placement does not depend on the optimisation level; -O1 is cheaper)
-	wholeNoPic = mk("ALL-NOPIC", "gcc", "-O1", nil, []string{"-fno-pic", "-fno-pie"}, false)
+	// (neither section placement of a written object nor linkage depends on the
+	// optimisation level; -O0 is the strictest for never-written objects and the cheapest)
+	wholeStatics := []*job{mk("ALL-STATIC", "gcc", "-O0", []string{"WUFFS_CONFIG__STATIC_FUNCTIONS"}, nil, true)}
+	wholeNoPics := []*job{mk("ALL-NOPIC", "gcc", "-O0", nil, []string{"-fno-pic", "-fno-pie"}, false)}
+	if r.Thorough {
+		wholeStatics = append(wholeStatics, mk("ALL-STATIC", "gcc", "-O2", []string{"WUFFS_CONFIG__STATIC_FUNCTIONS"}, nil, true))
+		wholeNoPics = append(wholeNoPics, mk("ALL-NOPIC", "gcc", "-O2", nil, []string{"-fno-pic", "-fno-pie"}, false))
+	}
+	wholeStatic := wholeStatics[0]
 	modJobs := map[cfg]map[string]*job{}
-	for _, c := range cfgs {
+	for _, c := range modCfgs {
 		modJobs[c] = map[string]*job{}
 		for _, m := range mods {
 			modJobs[c][m] = mk(m, c.cc, c.opt, []string{"WUFFS_CONFIG__MODULES", "WUFFS_CONFIG__MODULE__" + m, "WUFFS_NONMONOLITHIC"}, nil, true)
 		}
 	}
 	t1 := time.Now()
-	runJobs(jobs, 14)
-	r.Extra("t_compile_s", time.Since(t1).Seconds())
+	jobsDone := make(chan float64, 1)
+	go func() {
+		runJobs(jobs, 16)
+		jobsDone <- time.Since(t1).Seconds()
+	}()
+
+	// ---- meanwhile: generated packages (background), effect-rule tie (front
+	// end in worker processes; its C runs in the background afterwards)
+	t2 := time.Now()
+	finishGenerated := startGenerated(r, sb, work, genRands)
+	t4 := time.Now()
+	startEffC := runEffectsFront(r, effRand)
+	r.Extra("t_effects_front_s", time.Since(t4).Seconds())
+	finishEffC := startEffC(r, sb, effCRand)
+
+	// ---- cgen's C-name table
+	runNames(r)
+
+	r.Extra("t_compile_s", <-jobsDone)
 	r.Extra("objects", len(jobs))
 	for _, j := range jobs {
 		if j.err != nil {
@@ -297,7 +348,7 @@ func main() {
 	}
 
 	// ---- undefined symbols
-	for _, c := range cfgs {
+	for _, c := range modCfgs {
 		allDefined := map[string]bool{}
 		for _, m := range mods {
 			for _, g := range modJobs[c][m].info.definedGlobals() {
@@ -323,11 +374,9 @@ func main() {
 			}
 		}
 	}
-	wholes := []*job{wholeStatic, wholeNoPic}
-	for _, c := range cfgs {
-		if wholePlain[c] != nil {
-			wholes = append(wholes, wholePlain[c])
-		}
+	wholes := append(append([]*job{}, wholeStatics...), wholeNoPics...)
+	for _, c := range wholeCfgs {
+		wholes = append(wholes, wholePlain[c])
 	}
 	for _, j := range wholes {
 		for _, u := range j.info.Undef {
@@ -354,7 +403,7 @@ func main() {
 	// ---- no system-call / clock / entropy instructions in the library's code
 	// (an inline-asm syscall would not show up as an undefined symbol).  cpuid /
 	// xgetbv are expected: base's CPU feature detection.
-	for _, j := range []*job{wholePlain[cfg{"gcc", "-O2"}]} {
+	for _, j := range []*job{wholePlain[ship]} {
 		dis := binutils("objdump", "-d", "--no-show-raw-insn", j.out)
 		if dis == "ERR" {
 			r.Count("skipped:objdump-failed")
@@ -382,8 +431,7 @@ func main() {
 	}
 
 	// ---- exported functions, per std package
-	base := cfg{"gcc", "-O2"}
-	for _, c := range cfgs {
+	for _, c := range modCfgs {
 		for _, pn := range stdNames {
 			s := sums[pn]
 			M := strings.ToUpper(pn)
@@ -403,39 +451,52 @@ func main() {
 				r.Op("exports plain "+strings.TrimPrefix(s.opLine(), "decls "), joinOrDash(exp))
 				r.Nontrivial("exports:" + pn)
 			} else {
-				// other compilers/levels: the set must be the same as gcc -O2's
+				// other compilers/levels: the set must be the same as the base configuration's
 				if strings.Join(exp, " ") != strings.Join(modJobs[base][M].info.exportedFuncs(), " ") {
 					r.Fail("export-set-differs:"+pn+":"+c.cc+c.opt, "exported function set differs between compilers/levels", replayFor(j))
 				}
 			}
-			// every exported object must be read-only data
-			for _, o := range j.info.exportedObjects() {
+			for range j.info.exportedObjects() {
 				r.Count("exported-object")
-				_ = o
 			}
 		}
 	}
 	// whole library: exported = union; static build: only the helpers
-	{
+	for si, ws := range wholeStatics {
 		byPkg := map[string][]string{}
-		for _, e := range wholeStatic.info.exportedFuncs() {
+		for _, e := range ws.info.exportedFuncs() {
 			p := pkgOfSymbol(e, append([]string{"base", "private_impl"}, stdNames...))
 			byPkg[p] = append(byPkg[p], e)
 		}
 		for _, pn := range stdNames {
-			r.Op("exports static "+strings.TrimPrefix(sums[pn].opLine(), "decls "), joinOrDash(byPkg[pn]))
+			if si == 0 {
+				r.Op("exports static "+strings.TrimPrefix(sums[pn].opLine(), "decls "), joinOrDash(byPkg[pn]))
+			} else if a, b := joinOrDash(byPkg[pn]), sums[pn]; a != "" && b != nil {
+				// further static builds: same set as the first
+				var first []string
+				for _, e := range wholeStatic.info.exportedFuncs() {
+					if pkgOfSymbol(e, append([]string{"base", "private_impl"}, stdNames...)) == pn {
+						first = append(first, e)
+					}
+				}
+				if a != joinOrDash(first) {
+					r.Fail("export-set-differs:"+pn+":static:"+ws.cc+ws.opt, "exported function set of the static-functions build differs between levels", replayFor(ws))
+				}
+			}
 			allowed := sums[pn].allowedExports()
 			for _, e := range byPkg[pn] {
 				if _, ok := allowed[e]; !ok {
-					r.Fail("export-not-pub:"+pn+":"+e, "static-functions build exports "+e, replayFor(wholeStatic))
+					r.Fail("export-not-pub:"+pn+":"+e, "static-functions build exports "+e, replayFor(ws))
 				}
 			}
 		}
 		for _, p := range []string{"", "base", "private_impl"} {
 			for _, e := range byPkg[p] {
-				r.Fail("export-static-build:"+e, fmt.Sprintf("with WUFFS_CONFIG__STATIC_FUNCTIONS the library still exports base function %q", e), replayFor(wholeStatic))
+				r.Fail("export-static-build:"+e, fmt.Sprintf("with WUFFS_CONFIG__STATIC_FUNCTIONS the library still exports base function %q", e), replayFor(ws))
 			}
 		}
+	}
+	{
 		var union []string
 		for _, m := range mods {
 			if strings.HasPrefix(m, "BASE__") {
@@ -444,8 +505,10 @@ func main() {
 			union = append(union, modJobs[base][m].info.exportedFuncs()...)
 		}
 		sort.Strings(union)
-		if got := wholePlain[base].info.exportedFuncs(); strings.Join(got, " ") != strings.Join(union, " ") {
-			r.Fail("export-whole-vs-modules", "whole-library exports differ from the union of the module objects' exports: "+diffLists(got, union), replayFor(wholePlain[base]))
+		for _, c := range wholeCfgs {
+			if got := wholePlain[c].info.exportedFuncs(); strings.Join(got, " ") != strings.Join(union, " ") {
+				r.Fail("export-whole-vs-modules:"+c.cc+c.opt, "whole-library exports differ from the union of the module objects' exports: "+diffLists(got, union), replayFor(wholePlain[c]))
+			}
 		}
 	}
 
@@ -461,30 +524,24 @@ func main() {
 		declTie(r, sums[pn], string(csrc), "std/"+pn)
 	}
 
-	// ---- generated packages
-	nGen := 8
-	if r.Thorough {
-		nGen = 60
-	}
-	t2 := time.Now()
-	runGenerated(r, sb, work, nGen)
-	r.Extra("t_generated_s", time.Since(t2).Seconds())
-
 	// ---- pure-method clause on std
 	t3 := time.Now()
-	runStdPure(r, sb, work, sums, stdNames, wholePlain[base])
+	runStdPure(r, sb, work, sums, stdNames, wholePlain[ship], stdRand)
 	r.Extra("t_stdpure_s", time.Since(t3).Seconds())
 
-	// ---- effect-rule tie (real parser + checker in-process vs. the Lean tcheck)
-	t4 := time.Now()
-	runEffects(r, sb)
-	r.Extra("t_effects_s", time.Since(t4).Seconds())
+	// ---- generated packages (started above)
+	finishGenerated()
+	r.Extra("t_generated_done_after_s", time.Since(t2).Seconds())
 
-	// ---- cgen's C-name table
-	runNames(r)
+	// ---- C runs of suspicious accepted effect programs (started above)
+	finishEffC()
+	r.Extra("t_effects_done_after_s", time.Since(t4).Seconds())
 
+	r.Extra("cc_cache_hits", cacheHits)
+	r.Extra("cc_cache_misses", cacheMisses)
+	cacheEvict()
 	r.Extra("t_total_s", time.Since(t0).Seconds())
-	r.Finish("objects: every WUFFS_CONFIG__MODULE__x of the regenerated snapshot as its own TU + whole library (plain, STATIC_FUNCTIONS, -fno-pic), gcc -O2 (thorough: gcc -O0/-O3, clang -O0/-O2); generated packages: random pub/pri mixes of statuses/consts/structs/methods (pure, impure, coroutine, choosy, interface impls); effect programs: random pure/impure method bodies over a fixed struct, rendered to Wuffs and run through the real parser+checker; a case is non-trivial when it is a distinct (package, declaration set) / (struct, method, receiver-state schedule) / effect program")
+	r.Finish("objects: every WUFFS_CONFIG__MODULE__x of the regenerated snapshot as its own TU at gcc -O0 + whole library (gcc -O2 plain; -O0 STATIC_FUNCTIONS; -O0 -fno-pic) (thorough adds gcc -O2/-O3 and clang -O0/-O2 for all of them); generated packages: random pub/pri mixes of statuses/consts/structs/methods (pure, impure, coroutine, choosy, interface impls); effect programs: random pure/impure method bodies over a fixed struct, rendered to Wuffs and run through the real parser+checker; a case is non-trivial when it is a distinct (package, declaration set) / (struct, method, receiver-state schedule) / effect program")
 }
 
 func joinOrDash(l []string) string {
